@@ -10,6 +10,9 @@ PROPS = {
                               3: "operation refused although every supplied precondition holds", 4: "failure code outside the allowed set"},
                 assumptions=["generation numbers compared by rank, not by value",
                              "store clock strictly increasing between successive writes"]),
+    "C02": dict(harness="gcs", trusted=GCS_TRUST, assumptions=["generation numbers compared by rank"]),
+    "C10": dict(harness="gcs", trusted=GCS_TRUST, assumptions=["store clock strictly increasing between successive writes (collisions are measured and reported)"]),
+    "C15": dict(harness="gcs", trusted=GCS_TRUST, assumptions=["generation numbers compared by rank"]),
 }
 
 
